@@ -114,7 +114,7 @@ func init() {
 			c.Harness = hb()
 			c.Entries = append(c.Entries, EntrySpec{Pkg: "biscuit", Func: "VerifC09Equivalent",
 				Quick:    sc("authFacts", 1, "authRule", 1, "authCheck", 1, "blocks", 1, "blkFacts", 1, "blkCheck", 1),
-				Thorough: sc("authFacts", 1, "authRule", 2, "authCheck", 1, "blocks", 1, "blkFacts", 1, "blkRule", 1, "blkCheck", 2, "azFacts", 1, "policies", 2),
+				Thorough: sc("authFacts", 1, "authRule", 1, "authCheck", 1, "blocks", 1, "blkFacts", 1, "blkCheck", 2, "policies", 1),
 				Covers:   []string{"compared"}})
 		}
 	}
